@@ -127,6 +127,12 @@ func targetsToRemove(graph *core.BuildGraph, filter, targets, targetsToKeep []co
 		for _, src := range target.AllLocalSourcePaths() {
 			keepSrcs[src] = true
 		}
+		// Data files are used by the target just as much as its sources are.
+		for _, datum := range target.AllData() {
+			if file, ok := datum.(core.FileLabel); ok {
+				keepSrcs[file.Paths(graph)[0]] = true
+			}
+		}
 	}
 	ret := make(core.BuildLabels, 0, len(keepTargets))
 	retSrcs := []string{}
